@@ -114,9 +114,12 @@ add('C19', "spec/PacketCodec.tla transcribes the pack/unpack layers (run-length,
     "_seen after every receive; the last record is also cut at every real byte offset. The codec specification also models the loader's sniffing of "
     "style-like strings (KF-C19-4); the queue specification states the packet-id assumption as a design switch (UniqueIds): TLC refutes NothingLost for ids "
     "drawn from a wrapping generator, and the ids of ~10^5 real packets created back to back must be distinct; a packet the codec cannot decode, sent "
-    "between ordinary packets, must not disturb their delivery.",
+    "between ordinary packets, must not disturb their delivery. Code->spec: a writer thread really calling send() while reader threads really call "
+    "receive() on their own queue objects over the same file; each call is logged by its start and its end under one lock, the appends of the record in flight and "
+    "the length a read saw are inferred by TLC (spec/PacketQueueTrace.tla), every receive must be explainable by PacketQueue!Receive for a visible length between the "
+    "file's lengths at the start and at the end of the call, PacketQueue's invariants are evaluated in every state, corrupted traces must be rejected.",
     "Trusted: TLC, the abstract-to-real byte mapping of the replay rig. Uniqueness of ids is checked within one process; '__class__' dict keys are reserved.",
-    "TLA+ specs PacketCodec (exhaustive strings) and PacketQueue (model-checked, state graph replayed on real files)", "5 C19, 3.7")
+    "TLA+ specs PacketCodec (exhaustive strings) and PacketQueue (model-checked, state graph replayed on real files, concurrent executions validated against PacketQueueTrace)", "5 C19, 3.7")
 
 add('C20', "spec/Sgr.tla models SGR parameter assembly, wrapping, the ANSI_RE stripping automaton, the attribute reader of Style.from_raw and the "
     "colour gate over an abstract alphabet; TLC checks StripLaw, LenLaw, ParseLaw, OffLaw for every style of the domain (modifier sets x 16/bright/"
